@@ -130,7 +130,10 @@ RULE = ("random sequences of 1..8 write operations on the three list fields and 
         "least two operations and a non-empty expected field; distinct by case text; plus n/3 two-owner sequences "
         "(0..3 writes on a, b constructed with a's live container, in 60% 1..4 further writes through either field; "
         "on any of the six fields); plus n/3 sequences (<= 6) over schema V, "
-        "5..7 objects sharing 2..3 values of the compared key")
+        "5..7 objects sharing 2..3 values of the compared key; plus max(90, n/5) three-step histories (family "
+        "inferred-then-written, schemas U/L/D): writes on inverse / sub-property fields that infer elements into a "
+        "container field, then `a.f = a.f` / `a.f += [..]` / `a.f |= {x}` / an explicit collection naming them, then "
+        "the assignment of a new collection without them (relations + every field against the closure)")
 
 L_SEXP_CACHE: Dict[str, dict] = {}
 
@@ -619,6 +622,90 @@ def _ctor_history(rng, i: int) -> Case:
     return Case(line, ("constructed-and-coupled", "schema-" + tag) + tuple(sorted(shapes)), "random")
 
 
+def _inferred_then_written(rng, n: int) -> List[Case]:
+    """three-step histories on one container field: (a) writes on OTHER fields (inverse / sub-property fields of any
+    object) from which inference may put elements into field f of a; (b) a write whose assigned value contains what the
+    field holds at that moment - `a.f = a.f`, `a.f += [..]` / `a.f |= {x}`, or an explicit collection naming such
+    elements -; (c) the assignment of a new collection (the elements asserted into the field so far plus new ones,
+    the inferred ones NOT named). The inferring relations are never withdrawn, so the elements stay in the field
+    (fix 061eb98) however the field was written in between. Candidates are drawn generously and those the driver
+    calls ill-formed (an assignment would drop an ASSERTED element: the open F-C15-3) are left out."""
+    from core import Driver
+    cands: List[Case] = []
+    for _ in range(3 * n):
+        tag = rng.choice(["U", "L", "L", "D"])
+        d = _desc(tag)
+        kinds, targets, applies = d["kinds"], d["targets"], d["applies"]
+        plain = [c for c in range(d["nclasses"]) if c not in set(d["role_cls"])]
+        n_obj = rng.randint(3, 5)
+        cls_of = [rng.choice(plain) for _ in range(n_obj)]
+        conts = [(f, o) for f in range(len(kinds)) if kinds[f] != "single" for o in range(n_obj)
+                 if cls_of[o] in applies[f] and any(cls_of[t] in targets[f] for t in range(n_obj))]
+        if not conts:
+            continue
+        f, a = rng.choice(conts)
+        ts = [t for t in range(n_obj) if cls_of[t] in targets[f]]
+        ops: List[str] = []
+        single_done = set()
+        # (a) feeders: writes on other fields that mention a (as owner of another field or as element)
+        for _ in range(rng.randint(1, 3)):
+            if rng.random() < 0.7:   # x.g gets a
+                spots = [(g, x) for g in range(len(kinds)) for x in range(n_obj)
+                         if (g, x) != (f, a) and cls_of[x] in applies[g] and cls_of[a] in targets[g]]
+                if not spots:
+                    continue
+                g, x = rng.choice(spots)
+                y = a
+            else:                    # a.g gets y (g a sub-property field of the same object)
+                spots = [(g, y) for g in range(len(kinds)) for y in range(n_obj)
+                         if g != f and cls_of[a] in applies[g] and cls_of[y] in targets[g]]
+                if not spots:
+                    continue
+                g, y = rng.choice(spots)
+                x = a
+            if kinds[g] == "single":
+                if (g, x) in single_done:
+                    continue
+                single_done.add((g, x))
+                ops.append(f"(set {g} {x} {y})")
+            else:
+                ops.append(f"(add {g} {x} {y})")
+        if not ops:
+            continue
+        asserted: List[int] = []
+        shapes = set()
+        # (b) the field's own contents become part of an assigned value
+        for _ in range(rng.randint(1, 2)):
+            r = rng.random()
+            if r < 0.35:
+                ops.append(f"(assignSelf {f} {a})")
+                shapes.add("self-assignment")
+            elif r < 0.75:
+                xs = [rng.choice(ts)] if kinds[f] == "set" else [rng.choice(ts) for _ in range(rng.randint(0, 2))]
+                ops.append(f"(iadd {f} {a}{''.join(' ' + str(x) for x in xs)})")
+                asserted += xs
+                shapes.add("augmented-assignment")
+            else:
+                xs = list(dict.fromkeys(asserted + [rng.choice(ts) for _ in range(rng.randint(1, 2))]))
+                ops.append(f"(assign {f} {a}{''.join(' ' + str(x) for x in xs)})")
+                shapes.add("explicit-collection")
+                # which of the named elements were there by inference is not known here: the later assignment names
+                # or omits each of them at random (omitting an asserted one is filtered out by the driver)
+                asserted = [x for x in xs if x in asserted or rng.random() < 0.4]
+        # (c) a new collection: the asserted elements and new ones
+        for _ in range(rng.randint(1, 2)):
+            xs = list(dict.fromkeys(asserted + [rng.choice(ts) for _ in range(rng.randint(0, 2))]))
+            rng.shuffle(xs)
+            ops.append(f"(assign {f} {a}{''.join(' ' + str(x) for x in xs)})")
+            asserted = xs
+        objs = " ".join(f"({c} -)" for c in cls_of)
+        line = f"(hc {d['sexp']} (objs {objs}) (ops {' '.join(ops)}))"
+        cands.append(Case(line, ("inferred-then-written", "schema-" + tag) + tuple(sorted(shapes)), "random"))
+    verdicts = Driver(PID).run([c.line for c in cands]) if cands else []
+    out = [c for c, v in zip(cands, verdicts) if "spec" in v]
+    return out[:n]
+
+
 def witness_lines() -> Dict[str, str]:
     d = _desc()
     return {
@@ -659,6 +746,7 @@ def generate(rng, tier, n):
         cases.append(_reassign(rng, i))
     for i in range(max(90, n // 5)):
         cases.append(_ctor_history(rng, i))
+    cases += _inferred_then_written(rng, max(90, n // 5))
     return cases
 
 
@@ -716,10 +804,18 @@ def shrink(case: Case):
             return x if isinstance(x, str) else "(" + " ".join(ren(y) for y in x) + ")"
 
         ops = parse_sexp("(" + m.group(1) + ")")
+        cands = []
         for i in range(len(ops)):
-            if ops[i][0] != "ctor" and len(ops) > 1:      # taking a write away never makes a history ill-formed
-                yield Case(f"{case.line[: m.start()]}(ops {' '.join(ren(o) for o in ops[:i] + ops[i + 1:])}))",
-                           case.tags, "shrink")
+            if ops[i][0] != "ctor" and len(ops) > 1:
+                cands.append(Case(f"{case.line[: m.start()]}(ops {' '.join(ren(o) for o in ops[:i] + ops[i + 1:])}))",
+                                  case.tags, "shrink"))
+        # taking a write away can make a later assignment drop an ASSERTED element (the element was there by
+        # inference before): such histories are outside the family (F-C15-3) - the driver says which
+        from core import Driver
+        verdicts = Driver(PID).run([revive(c).line for c in cands]) if cands else []
+        for c, v in zip(cands, verdicts):
+            if "spec" in v:
+                yield c
         return
     if case.line.startswith("(w2 "):
         yield from _shrink2(case)
